@@ -217,17 +217,27 @@ def _body(rl_i, fr, rmf, rt, smf, run_if, pos, prev_kind, soff, au,
 
 @cond(timeout=900, split={'b0': range(11), 'pos': range(3)})
 def c_single_invocation_table(b0: int, pos: int, run_if: int, prev_kind: int, soff: bool, au: bool, smf: bool,
-                              mset: bool, mval: int, d1: int, bv: int) -> bool:
+                              mset: bool, mval: int, d1: int) -> bool:
   """
   pre: 0 <= b0 <= 10 and 0 <= run_if <= 1
   pre: 0 <= pos <= 2 and 0 <= prev_kind <= 2
   pre: 0 <= d1 <= 4
-  pre: 0 <= bv < 9
   post: _
   """
-  _BV[0] = bv
   # one invocation (repeat_limit=1): the decision table incl. one diagnoser, position, previous record
   return _body(1, False, False, False, smf, run_if, pos, prev_kind, soff, au, b0, 0, 0, 0, mset, mval, d1, 0)
+
+
+@cond(timeout=600, split={'bv': range(9)})
+def c_bad_result_values(bv: int, pos: int, mset: bool, mval: int, soff: bool) -> bool:
+  """
+  pre: 0 <= bv < 9
+  pre: 0 <= pos <= 2
+  post: _
+  """
+  # any non-PhaseResult return value (truthy or falsy) is an ERROR, never a PASS
+  _BV[0] = bv
+  return _body(1, False, False, False, False, 0, pos, 0, soff, False, H.B_BADRESULT, 0, 0, 0, mset, mval, 0, 0)
 
 
 @cond(timeout=600, split={'b0': (0, 2, 5, 8, 10)})
